@@ -388,7 +388,7 @@ MdFields == {"string", "int", "uint8", "bool", "boolptr", "float64", "duration",
 MdStrVals == {"s:", "s:1", "s:-1", "s:true", "s:yes", "s:abc", "s:1s", "s:1h1", "s:9999999999999999999",
               "s:1.5", "s:1Ki", "s:1Gi", "s:1e999", "s:1,2", "s:,", "s:1s,2s", "s:1s, ,x", "s:Null", "s:P1D",
               "s:fullwidth1", "s:-", "s:1e-999Ei"}
-MdOtherVals == {"int", "float", "bool", "nil", "nilptr", "map", "slice"}
+MdOtherVals == {"int", "float", "bool", "nil", "nilptr", "ptr", "ptrptr", "ptrptr-nil", "intptr", "map", "slice"}
 (* key: exact; upper (upper-cased); alias (the field's alias name);            *)
 (* dup-case (both the exact key and its upper-cased form)                      *)
 MdDecodeP == {p \in [input : MdInputs, field : MdFields, val : MdStrVals \cup MdOtherVals,
@@ -419,18 +419,108 @@ MdMiscEntries == <<"metadata.Duration.UnmarshalJSON", "metadata.Duration.ToISOSt
 (* (time.Duration), bytes ([]byte), maa (a map[any]any)                        *)
 CfgStrVals == {"s:", "s:1", "s:-1", "s:abc", "s:1s", "s:true", "s:1.5", "s:99999999999999999999", "s:300",
                "s:2024-01-01T00:00:00Z", "s:2024-01-01T00:00:00.5+25:00", "s:fullwidth1", "s:1e999", "s:bad"}
-CfgOtherVals == {"int", "float", "bool", "nil", "nilptr", "ptr", "ptrptr-nil", "ptrptr", "intptr", "intptr-nil",
-                 "map", "slice", "maa", "duration", "bytes"}
+(* pointer chains: ptr / ptrptr (to the string "5"), intptr / intptrptr (to the *)
+(* int 7), and the same chains with a nil at each level: nilptr, ptrptr-nil,   *)
+(* intptr-nil, intptrptr-nil                                                   *)
+NilChainVals == {"nilptr", "ptrptr-nil", "intptr-nil", "intptrptr-nil"}
+CfgOtherVals == {"int", "float", "bool", "nil", "ptr", "ptrptr", "intptr", "intptrptr",
+                 "map", "slice", "maa", "duration", "bytes"} \cup NilChainVals
+(* targets named after the Go type of the field.  The StringDecoder targets:   *)
+(* decoder (struct type, pointer receiver), decoderptr (pointer to it),        *)
+(* vdecoder (struct type, VALUE receiver), vdecoderptr (pointer to it),        *)
+(* vmapdecoder / vslicedecoder (named map / slice type with a value receiver), *)
+(* vmapdecoderptr (pointer to the named map type)                              *)
+DecoderTargets == {"decoder", "decoderptr", "vdecoder", "vdecoderptr", "vmapdecoder", "vslicedecoder",
+                   "vmapdecoderptr"}
 CfgTargets == {"string", "int", "int8", "int16", "int32", "int64", "uint", "uint8", "uint16", "uint32",
-               "uint64", "float32", "float64", "bool", "duration", "time", "decoder", "decoderptr",
-               "intptr", "stringptr", "strings", "stringmap", "nested", "any", "unknown"}
+               "uint64", "float32", "float64", "bool", "duration", "time",
+               "intptr", "stringptr", "strings", "stringmap", "nested", "any", "unknown"} \cup DecoderTargets
 CfgDecodeP == {p \in [val : CfgStrVals \cup CfgOtherVals, target : CfgTargets,
                       input : {"msa", "maa", "typed"}, out : {"ptr", "value", "mapptr", "ptr-int"}] :
                  /\ (p.out # "ptr" => p.target = "string")
-                 /\ (p.input = "typed" => p.val \in {"s:1", "nilptr", "ptr", "ptrptr-nil", "intptr-nil"})}
-CfgDecodeCls(p) == IF p.val \in {"nilptr", "ptrptr-nil", "intptr-nil"} THEN "nil-ptr"
+                 /\ (p.input = "typed" => p.val \in {"s:1", "ptr", "ptrptr", "intptrptr"} \cup NilChainVals)}
+CfgDecodeCls(p) == IF p.val \in NilChainVals THEN "nil-ptr"
                    ELSE IF p.out # "ptr" THEN "output-" \o p.out
+                   ELSE IF p.target \in DecoderTargets THEN "target-" \o p.target
                    ELSE "value-" \o (IF p.val \in CfgOtherVals THEN p.val ELSE "string")
+(* the text of the decoded field a successful call must produce (the harness   *)
+(* renders the field: a string as is, an int in decimal, a duration with       *)
+(* Duration.String); "any" = the statement is silent                           *)
+CfgExpect(p) ==
+  IF p.out # "ptr" \/ p.target \notin {"string", "int", "duration"} THEN "any"
+  ELSE IF p.val \in NilChainVals \cup {"nil"}
+       THEN (CASE p.target = "string" -> "" [] p.target = "int" -> "0" [] OTHER -> "0s")
+  ELSE IF p.val \in {"ptr", "ptrptr"}          \* the pointee "5"; a plain integer duration is milliseconds
+       THEN (CASE p.target = "string" -> "5" [] p.target = "int" -> "5" [] OTHER -> "5ms")
+  ELSE IF p.val \in {"intptr", "intptrptr", "int"}   \* the int 7; an int duration is nanoseconds
+       THEN (CASE p.target = "string" -> "7" [] p.target = "int" -> "7" [] OTHER -> "7ns")
+  ELSE IF p.val = "s:1" THEN (CASE p.target = "string" -> "1" [] p.target = "int" -> "1" [] OTHER -> "1ms")
+  ELSE IF p.val = "s:300" THEN (CASE p.target = "string" -> "300" [] p.target = "int" -> "300" [] OTHER -> "300ms")
+  ELSE "any"
+
+-----------------------------------------------------------------------------
+(* duration VALUES for duration-typed fields.  A plain integer is seconds for  *)
+(* metadata.DecodeMetadata and milliseconds for config.Decode /                *)
+(* retry.DecodeConfig.  Integers are digit sequences (TLC integers are 32 bit) *)
+(* around the bounds 9223372036 = MaxInt64 div 1e9 (seconds) and               *)
+(* 9223372036854 = MaxInt64 div 1e6 (milliseconds)                             *)
+DigitSeqs == { <<0>>, <<1>>, <<2,1,4,7,4,8,3,6,4,8>>,
+               <<9,2,2,3,3,7,2,0,3,5>>, <<9,2,2,3,3,7,2,0,3,6>>, <<9,2,2,3,3,7,2,0,3,7>>,
+               <<9,2,2,3,3,7,2,0,3,6,8,5,3>>, <<9,2,2,3,3,7,2,0,3,6,8,5,4>>, <<9,2,2,3,3,7,2,0,3,6,8,5,5>>,
+               <<1,0,0,0,0,0,0,0,0,0,0,0,0,0>>,
+               <<9,2,2,3,3,7,2,0,3,6,8,5,4,7,7,5,8,0,7>>, <<9,2,2,3,3,7,2,0,3,6,8,5,4,7,7,5,8,0,8>>,
+               <<1,8,4,4,6,7,4,4,0,7,3,7,0,9,5,5,1,6,1,6>>, <<9,9,9,9,9,9,9,9,9,9,9,9,9,9,9,9,9,9,9,9>> }
+SecondsBound == <<9,2,2,3,3,7,2,0,3,6>>
+MillisBound == <<9,2,2,3,3,7,2,0,3,6,8,5,4>>
+(* a <= b for decimal digit sequences without leading zeros *)
+LeqDigits(a, b) == \/ Len(a) < Len(b)
+                   \/ Len(a) = Len(b) /\ (a = b \/ \E i \in 1..Len(a) : a[i] < b[i] /\ \A j \in 1..(i - 1) : a[j] = b[j])
+MdDurTgts == {"md-duration", "md-mdduration", "md-mddurationptr", "md-durations", "md-durationsptr"}
+ListDurTgts == {"md-durations", "md-durationsptr"}
+DurTgts == MdDurTgts \cup {"cfg-duration", "retry-duration", "retry-maxInterval"}
+DurUnit(tgt) == IF tgt \in MdDurTgts THEN "seconds" ELSE "milliseconds"
+(* form: plain "N"; list-first "N,1s"; list-last "1s, N" (list fields only)    *)
+DurIntP == {p \in [tgt : DurTgts, form : {"plain", "list-first", "list-last"}, neg : BOOLEAN, digits : DigitSeqs] :
+              p.form # "plain" => p.tgt \in ListDurTgts}
+DurIntFits(p) == LeqDigits(p.digits, IF DurUnit(p.tgt) = "seconds" THEN SecondsBound ELSE MillisBound)
+DurIntCls(p) == "duration-" \o (IF p.form = "plain" THEN "" ELSE "list-") \o DurUnit(p.tgt) \o
+                (IF DurIntFits(p) THEN "-in-range" ELSE "-overflow")
+(* literal duration texts; the ones that fit time.Duration: *)
+DurLits == {"1h", "1.5h", "2562047h", "2562048h", "9999999h", "-2562048h", "9223372036854775807ns",
+            "9223372036854775808ns", "PT1H", "PT2562048H", "P1D", "P106751D", "P106752D"}
+DurLitsFitting == {"1h", "1.5h", "2562047h", "9223372036854775807ns", "PT1H", "P1D", "P106751D"}
+DurLitP == {p \in [tgt : DurTgts, form : {"plain", "list-first", "list-last"}, lit : DurLits] :
+              p.form # "plain" => p.tgt \in ListDurTgts}
+DurLitCls(p) == "duration-text-" \o (IF p.lit \in DurLitsFitting THEN "in-range" ELSE "overflow")
+DurEntries(p) == IF p.tgt \in MdDurTgts THEN <<"metadata.DecodeMetadata">>
+                 ELSE IF p.tgt = "cfg-duration" THEN <<"config.Decode">> ELSE <<"retry.DecodeConfig">>
+
+(* decode TARGET shapes (the result argument) for metadata.DecodeMetadata,     *)
+(* Properties.Decode and config.Decode:                                        *)
+(*  nil; typed-nil (a nil pointer to struct); value (non-pointer struct);       *)
+(*  ptr-int / ptr-string / ptr-map / ptr-slice (pointer to a non-struct);       *)
+(*  ptr-struct; ptrptr-struct; ptrptr-nil (pointer to a nil pointer to struct); *)
+(*  squash-struct (embeds a struct with `mapstructure:",squash"`); squash-ptr   *)
+(*  (embeds a *struct, nil) / squash-ptr-set (allocated); squash-nested (the    *)
+(*  squashed struct squashes another); squash-ptr-nested (the inner one is a    *)
+(*  *struct); squash-nonstruct (a map field tagged squash); embedded-untagged /  *)
+(*  embedded-ptr-untagged (embedding without a tag)                             *)
+(* key: which key the input map holds: none, outer (a field of the result),     *)
+(* inner (a field of the embedded struct), inner-alias (its alias), both        *)
+TgtResults == {"nil", "typed-nil", "value", "ptr-int", "ptr-string", "ptr-map", "ptr-slice", "ptr-struct",
+               "ptrptr-struct", "ptrptr-nil", "squash-struct", "squash-ptr", "squash-ptr-set", "squash-nested",
+               "squash-ptr-nested", "squash-nonstruct", "embedded-untagged", "embedded-ptr-untagged"}
+DecodeTargetP == [result : TgtResults, key : {"none", "outer", "inner", "inner-alias", "both"}, val : {"s:x", "s:"}]
+DecodeTargetEntries == <<"metadata.DecodeMetadata", "metadata.Properties.Decode", "config.Decode">>
+
+(* retry.DecodeConfig / DecodeConfigWithPrefix: one Config member x value       *)
+RetryFields == {"policy", "duration", "initialInterval", "randomizationFactor", "multiplier", "maxInterval",
+                "maxElapsedTime", "maxRetries", "unknown"}
+RetryVals == {"s:", "s:constant", "s:EXPONENTIAL", "s:foo", "s:1", "s:-1", "s:1.5", "s:1s", "s:1e999",
+              "s:99999999999999999999", "s:fullwidth1", "int", "float", "bool", "nil", "map", "slice", "ptr",
+              "intptr", "duration"} \cup NilChainVals
+RetryCfgP == [field : RetryFields, val : RetryVals, via : {"plain", "prefix"}]
+RetryCfgEntries(p) == IF p.via = "plain" THEN <<"retry.DecodeConfig">> ELSE <<"retry.DecodeConfigWithPrefix">>
 (* config.Normalize / PrefixedBy: trees                                        *)
 TreeTok == {"nil", "scalar", "mss", "msa", "maa", "maa-intkey", "maa-nested", "msa-maa", "msa-maa-intkey",
             "slice-maa", "slice-maa-intkey", "nil-map", "nil-slice", "empty", "deep"}
@@ -446,7 +536,8 @@ Families == {"cron-term", "cron-list", "cron-sep", "cron-count", "cron-desc", "c
              "key-blob", "key-ws", "key-raw", "jwk-mut", "certs", "key-obj",
              "upper", "rune",
              "enc-header", "enc-manifest", "enc-wfk", "enc-payload", "enc-alg", "enc-encrypt",
-             "md-decode", "md-misc", "cfg-decode", "cfg-tree"}
+             "md-decode", "md-misc", "cfg-decode", "cfg-tree",
+             "dur-int", "dur-lit", "decode-target", "retry-cfg"}
 
 Params(f) ==
   CASE f = "cron-term" -> CronTermP [] f = "cron-list" -> CronListP [] f = "cron-sep" -> CronSepP
@@ -463,6 +554,8 @@ Params(f) ==
     [] f = "enc-payload" -> EncPayloadP [] f = "enc-alg" -> EncAlgP [] f = "enc-encrypt" -> EncEncryptP
     [] f = "md-decode" -> MdDecodeP [] f = "md-misc" -> MdMiscP
     [] f = "cfg-decode" -> CfgDecodeP [] f = "cfg-tree" -> CfgTreeP
+    [] f = "dur-int" -> DurIntP [] f = "dur-lit" -> DurLitP
+    [] f = "decode-target" -> DecodeTargetP [] f = "retry-cfg" -> RetryCfgP
 
 Cls(f, p) ==
   CASE f = "cron-term" -> CronTermCls(p) [] f = "cron-list" -> CronListCls(p)
@@ -481,6 +574,8 @@ Cls(f, p) ==
     [] f = "enc-alg" -> "algorithm-token" [] f = "enc-encrypt" -> "encrypt-options"
     [] f = "md-decode" -> MdDecodeCls(p) [] f = "md-misc" -> "token"
     [] f = "cfg-decode" -> CfgDecodeCls(p) [] f = "cfg-tree" -> "tree"
+    [] f = "dur-int" -> DurIntCls(p) [] f = "dur-lit" -> DurLitCls(p)
+    [] f = "decode-target" -> "result-" \o p.result [] f = "retry-cfg" -> "retry-" \o p.field
 
 Entries(f, p) ==
   CASE f \in {"cron-term", "cron-list", "cron-sep", "cron-desc", "cron-tz", "cron-combo"} -> CronParseNext
@@ -504,11 +599,27 @@ Entries(f, p) ==
     [] f = "md-decode" -> MdDecodeEntries(p) [] f = "md-misc" -> MdMiscEntries
     [] f = "cfg-decode" -> <<"config.Decode">>
     [] f = "cfg-tree" -> <<"config.Normalize", "config.PrefixedBy">>
+    [] f \in {"dur-int", "dur-lit"} -> DurEntries(p)
+    [] f = "decode-target" -> DecodeTargetEntries [] f = "retry-cfg" -> RetryCfgEntries(p)
 
 Range(s) == {s[i] : i \in DOMAIN s}
 
 Shape(f, p) == [fam |-> f, cls |-> Cls(f, p), entries |-> Entries(f, p), p |-> p]
 ShapesOf(f) == {Shape(f, p) : p \in Params(f)}
+
+(* --- value laws ("malformed input is reported through the returned error") --- *)
+(* a shape whose value does not fit the type it is decoded into: the call must  *)
+(* return an error                                                              *)
+MustReject(f, p) == \/ f = "dur-int" /\ ~DurIntFits(p)
+                    \/ f = "dur-lit" /\ p.lit \notin DurLitsFitting
+(* what a call that returns no error must have produced (the harness reports    *)
+(* `got`): for duration values the sign of the decoded duration (a wrapped-     *)
+(* around product shows as the wrong sign), for config pointer chains the       *)
+(* text of the field; "any" = no expectation                                    *)
+Expect(f, p) == CASE f = "dur-int" -> (IF p.digits = <<0>> THEN "zero" ELSE IF p.neg THEN "neg" ELSE "pos")
+                  [] f = "dur-lit" -> "pos"
+                  [] f = "cfg-decode" -> CfgExpect(p)
+                  [] OTHER -> "any"
 
 (* e is a recorded call on a shape of the grammar *)
 IsShapeCall(e) ==
